@@ -22,8 +22,17 @@ PARTIAL = ('proved (Properties/C09.v, all closed under the global context): (1) 
            'factor and every evolved bond matrix of the first run is invertible (full rank, bond dimensions unchanged) -- that QR non-uniqueness then only changes the gauge is proved '
            '(C09_qr_gauge_unique); (d) the second call\'s orthonormalize only re-gauges its (right-canonical) input by unitaries and divides the first tensor by the reported norm. '
            'L = 1 needs contract (a) only (C09_reversible_L1). Non-vacuity: rational L = 2 instance with a non-trivial unipotent flow (C09_reversible_nonvacuous). '
-           'NOT proved: exactness on a complete manifold (a statement about the matrix exponential, of which the model has no definition); that the floating-point Krylov exponential meets '
-           'contracts (a), (b) (it does up to the Krylov error; measured by prop() against scipy.linalg.expm); reversibility when a bond matrix is rank deficient; contract (d) from the QR contract of orthonormalize')
+           '(3) EXACTNESS ON A COMPLETE MANIFOLD for the single-site integrator WITHOUT quantum numbers (C09_exact_complete: every L >= 1, every number of steps, every complete bond profile '
+           'Ds 0 = Ds L = 1, d*Ds j = Ds (j+1) left of a split site m, Ds j = d*Ds (j+1) right of it -- e.g. min(d^j, d^(L-j)); special cases C09_exact_L1, C09_exact_L2): dense(result) = G(n*dt) dense(normalised start state) '
+           'and the returned number is the norm reported by orthonormalize, for an ABSTRACT exact global flow G (G 0 = id, G t o G s = G(s+t)) -- RELATIVE TO explicit contracts on the local solvers: '
+           '(F) the site solver is a shape-preserving flow in its time argument; (IL)/(IR) site solver on Q.C = Q.(bond solver on C) for left-unitary Q resp. on C.B = (bond solver on C).B for right-unitary B, '
+           'the bond problem being built with the model\'s own environment update (encodes H_site (Q x 1) = (Q x 1) H_bond, which IS proved for apply_local_hamiltonian / apply_local_bond_contraction / '
+           'contraction_operator_step_left/right: C09_local_operators_intertwine_left/_right, plus "H1 V = V H2 => exp(t H1) V = V exp(t H2)"); (A) between complete (unitary) frames whose environment blocks are built by the model, '
+           'the site solver at the split site changes the dense state by G t (encodes exp(t V^H H V) = V^H exp(tH) V for unitary V); per recorded QR call: LAPACK contract, R with as many rows as the input has columns, '
+           'orthonormal rows of Q for square inputs; hdt + hdt = dt; start tensors right of m right-unitary. No QR uniqueness / gauge covariance / invertibility needed (Lubich-Oseledets-Vandereycken cancellation of K- and S-steps). '
+           'Non-vacuity: rational L = 2 instance with H = sigma+ x sigma+, environment-dependent exact solvers, all contracts proved for all arguments, rotation QR oracle (C09_exact_nonvacuous, C09_exact_nontrivial). '
+           'NOT proved: exactness of the TWO-SITE integrator; exactness with quantum numbers (fails in some sectors: known finding K1, tdvp-*-mixed-complete-sector); that the floating-point Krylov exponential meets '
+           'the contracts (it does up to the Krylov error; measured by prop() against scipy.linalg.expm); reversibility when a bond matrix is rank deficient; contract (d) from the QR contract of orthonormalize')
 ASSUMPTIONS = SR.ASSUMPTIONS
 RULE = ('exactness: complete manifolds (maximal bond dimensions of a charge sector, or no charges), L in 1..5, d in 2..3, Krylov dimension >= '
         'local dimension, real / imaginary / complex dt with |dt|*||H|| <= ~1, 1..3 steps, both integrators, against scipy.linalg.expm; '
